@@ -1063,6 +1063,21 @@ func (e *Env) call(n *ast.CallExpr) tv {
 		return tv{r[0], sig.Results().At(0).Type()}
 	case "oncedone": // oncedone(&once): the sync.Once at this address has run
 		return tv{Select(heapArr(e.h(), "G|oncedone", ArrayS(IntS, BoolS)), argT(0)), nil}
+	case "gw": // gw("name", key): witness array declared by a `range n ghost` clause
+		lit, ok := n.Args[0].(*ast.BasicLit)
+		if !ok {
+			evalFail("gw: first argument must be a string literal")
+		}
+		name := strings.Trim(lit.Value, "\"")
+		d, ok := ghostWitnessDecl[name]
+		if !ok {
+			evalFail("gw: no witness array %s", name)
+		}
+		var vt types.Type = types.Typ[types.Int]
+		if d[1] == "string" {
+			vt = types.Typ[types.String]
+		}
+		return tv{Select(heapArr(e.h(), "GW|"+name, ghostWitnessSort(name)), argT(1)), vt}
 	case "noopfn":
 		return tv{App("noopfn", BoolS, argT(0)), nil}
 	case "emptyblobfn": // the function value is a literal `func() (blob.Blob, error) { return blob.NewBytes(nil), nil }`
